@@ -131,12 +131,34 @@ def find_role_method(prog, type_name, preferred, must_call_re, is_async=True, re
     return ms[roots[0]]
 
 
-def find_closures_calling(prog, parent_fn, callee_re):
-    """closure bodies nested (at any depth) in `parent_fn` whose MIR contains a call matching callee_re"""
+def local_callees(prog, f, depth=2, seen=None):
+    """crate-local functions (transitively, `depth` levels) called from f or the closures nested in it"""
+    seen = seen if seen is not None else {}
+    if depth < 0:
+        return seen
+    for c in _callees(prog, f):
+        last = c.rsplit('::', 1)[-1]
+        if last.startswith('{') or '<' in last:
+            continue
+        for g in prog.by_last.get(last, []):
+            if g.blocks and g.raw not in seen and '{closure' not in g.raw and (g.impl_span is None or re.search(r'(^|::)' + re.escape(g.name.split('::')[0]) + r'\b', c) or True):
+                # free functions must match by path suffix; methods by `Type::name`
+                segs = [x for x in c.split('::') if x and not x.startswith('<')]
+                if g.impl_span is None and g.name.split('::')[-len(segs):] != segs[-len(g.name.split('::')):] and g.name.split('::')[-1:] != segs[-1:]:
+                    continue
+                seen[g.raw] = g
+                local_callees(prog, g, depth - 1, seen)
+    return seen
+
+
+def find_closures_calling(prog, parent_fn, callee_re, transitive=False):
+    """closure bodies nested (at any depth) in `parent_fn` - and, with transitive=True, in the crate-local functions it
+    calls - whose MIR contains a call matching callee_re"""
     pat = re.compile(callee_re)
     out = []
+    roots = [parent_fn] + (list(local_callees(prog, parent_fn).values()) if transitive else [])
     for raw, fs in prog.fns.items():
-        if not raw.startswith(parent_fn.raw + '::{closure#'):
+        if not any(raw.startswith(r.raw + '::{closure#') for r in roots):
             continue
         for f in fs:
             hit = False
@@ -204,9 +226,12 @@ def solve(constraints, timeout_ms=60000, want_model=True):
     t0 = time.time()
     r = s.check()
     dt = time.time() - t0
-    if os.environ.get('VERIF_TIER_EFFECTIVE') == 'thorough' and str(r) in ('sat', 'unsat') and DIFF_STATS['queries'] < 400:
+    if os.environ.get('VERIF_TIER_EFFECTIVE') == 'thorough' and str(r) in ('sat', 'unsat') and DIFF_STATS['queries'] < 400 \
+            and DIFF_STATS.get('wall_s', 0.0) < float(os.environ.get('VERIF_CVC5_BUDGET_S', '300')):
         DIFF_STATS['queries'] += 1
-        c = cvc5_check(constraints, 30)
+        t1 = time.time()
+        c = cvc5_check(constraints, 10)
+        DIFF_STATS['wall_s'] = DIFF_STATS.get('wall_s', 0.0) + time.time() - t1
         if c in ('sat', 'unsat'):
             if c != str(r):
                 raise SolverDisagreement(f'z3 says {r}, cvc5 says {c}')
@@ -436,6 +461,66 @@ def struct_fields(relpath, name):
         if pairs is not None:
             return Fields(pairs, name, relpath)
     raise NotFound(f'struct {name} in {relpath}')
+
+
+def role_path(relpath, struct, role):
+    """[(struct, field index), ..] leading to the field that plays `role` (a field name of the pinned `struct`): the field itself,
+    or - after several fields were bundled into a nested struct of the same module - the field of that nested struct with
+    the role's pinned type (same name preferred)"""
+    fs = struct_fields(relpath, struct)
+    if role in fs:
+        return [(struct, fs.index(role))]
+    global _roles
+    if _roles is None:
+        try:
+            _roles = json.load(open(ROLES_FILE))
+        except OSError:
+            _roles = {}
+    ty = (_roles.get(f'{relpath}::{struct}') or {}).get(role)
+    if ty is None:
+        raise NotFound(f'role {role} of {struct}: not a pinned field')
+    for i, fty in enumerate(fs.types):
+        head = re.sub(r'<.*$', '', fty)
+        if not re.fullmatch(r'\w+', head) or head == struct:
+            continue
+        try:
+            nested = struct_fields(relpath, head)
+        except NotFound:
+            continue
+        cands = [j for j, t in enumerate(nested.types) if t == ty]
+        named = [j for j in cands if list.__getitem__(nested, j) == role]
+        pick = named[0] if named else (cands[0] if len(cands) == 1 else None)
+        if pick is not None:
+            return [(struct, i), (head, pick)]
+    raise NotFound(f'field {role} of {struct} ({relpath}): not present, no unique field of its pinned type, not in a nested struct')
+
+
+def struct_sym_deep(name, ty, relpath, struct, values):
+    """like struct_sym, but a role may live inside a nested struct (role_path)"""
+    nested = {}
+    top = {}
+    for role, v in values.items():
+        path = role_path(relpath, struct, role)
+        if len(path) == 1:
+            top[path[0][1]] = v
+        else:
+            (_, i), (head, j) = path
+            nested.setdefault((i, head), {})[j] = v
+    s = Sym(name, ty)
+    for i, v in top.items():
+        s = s.with_ov(('f', i), v)
+    for (i, head), sub in nested.items():
+        inner = Sym(f'{name}.{i}', head)
+        for j, v in sub.items():
+            inner = inner.with_ov(('f', j), v)
+        s = s.with_ov(('f', i), inner)
+    return s
+
+
+def read_role(ex, v, relpath, struct, role):
+    for _, i in role_path(relpath, struct, role):
+        v = ex.project(v, ('field', i, ''))
+    return v
 
 
 def struct_agg(relpath, name, bindings, prefix=None):
